@@ -287,6 +287,45 @@ Theorem C17_scope_example :
 Proof. exact scope_example. Qed.
 Print Assumptions C17_scope_example.
 
+(* (10b) "mutex-protected critical sections ... / the interpreter's own shared tables": the mutex of a scope that run
+   made synchronized, while the variables are used (ScopeLockModel.v: Scope.get / localGet / set / has / bound / remove /
+   Let; a binding is a value or a *Ref, the variable of with-slots).  For every scope structure, every lookup path and
+   every history of variable operations by any routines: every operation completes (nobody waits for ever) and no scope
+   mutex is left locked - so a program that is serialisable by the theorems above also finishes. *)
+From C17 Require Import ScopeLockModel ScopeLockProofs.
+Theorem C17_scope_locks_released : forall st l, arun all_release st [] l = Some [].
+Proof. exact scope_locks_released. Qed.
+Print Assumptions C17_scope_locks_released.
+
+(* one operation, from any set of mutexes left locked: if it completes, it holds what was held before - no more *)
+Theorem C17_scope_operation_releases : forall st path held k t b held',
+  access all_release st held path k t b = Some held' -> held' = held.
+Proof. exact access_releases. Qed.
+Print Assumptions C17_scope_operation_releases.
+
+(* the release is needed on EVERY exit path: a lock discipline that misses it on one exit path (operation k finding a
+   binding of kind b) leaves the mutex of a shared scope locked, and whatever operation comes next through that scope
+   waits for ever *)
+Theorem C17_missed_release_blocks : forall rel st i s rest k b k2 t2 b2,
+  nth_error (stacks st) i = Some (s :: rest) -> synced st s = true ->
+  rel k (Some b) = false ->
+  exists h, astep rel st [] (i, k, s, b) = Some h /\ is_held h s = true /\
+            astep rel st h (i, k2, t2, b2) = None.
+Proof. exact missed_release_blocks. Qed.
+Print Assumptions C17_missed_release_blocks.
+
+(* REFUTED for the variant of Scope.set that returns from the *Ref branch without Unlock (a seeded change, not the
+   code): routines started inside a with-slots body, (setq v ..) on the with-slots variable, then a lookup by the
+   other routine never returns; let variables and unshared scopes do not show it *)
+Theorem C17_leak_set_ref_blocks_refuted :
+  exists st, ex_slots_state = Some st /\
+    arun all_release st [] [(0, KGet, 2, BRef); (0, KSet, 2, BRef); (1, KGet, 1, BPlain)] = Some [] /\
+    arun leak_set_ref st [] [(0, KGet, 2, BRef); (0, KSet, 2, BRef)] = Some [2] /\
+    arun leak_set_ref st [] [(0, KGet, 2, BRef); (0, KSet, 2, BRef); (1, KGet, 1, BPlain)] = None /\
+    arun leak_set_ref st [] [(0, KGet, 1, BPlain); (0, KSet, 1, BPlain); (1, KGet, 1, BPlain)] = Some [].
+Proof. exact leak_set_ref_blocks_refuted. Qed.
+Print Assumptions C17_leak_set_ref_blocks_refuted.
+
 (* (11) forms compiled in place on first evaluation (function.go setCompiled): any number of threads, any
    interleaving of "read the slot / compile my own object / setCompiled": the slot is stored at most once and every
    thread evaluates the one object that is in the slot *)
